@@ -34,6 +34,8 @@ def cases(tier, seed):
     yield "C16|ber|partition", {"kind": "partition", "metric": "ber", "tier": tier}
     for bs in (None, 2, 4):
         yield f"C16|bler|partition|bs={bs}", {"kind": "partition", "metric": "bler", "bs": bs, "tier": tier}
+    for dt in ("float32", "float64", "int64"):
+        yield f"C16|bler|symbols|{dt}", {"kind": "symbols", "dtype": dt, "tier": tier}
     Ls = range(1, 7) if tier == "quick" else range(1, 9)
     for L in Ls:
         yield f"C16|oneshot|L={L}", {"kind": "oneshot", "L": L, "tier": tier}
@@ -44,7 +46,7 @@ def component_of(p):
 
 
 def execute(p, res):
-    {"bfs": bfs_case, "partition": partition_case, "oneshot": oneshot_case, "counts": counts_case}[p["kind"]](p, res)
+    {"bfs": bfs_case, "partition": partition_case, "oneshot": oneshot_case, "counts": counts_case, "symbols": symbols_case}[p["kind"]](p, res)
 
 
 # ----------------------------------------------------------------------------- helpers
@@ -234,6 +236,71 @@ def counts_case(p, res):
                 if (int(b.error_blocks), int(b.total_blocks)) != (e // 3, n // 3) or not close(float(b.compute()), e // 3, n // 3):
                     res.viol("bler", f"n={n},e={e}", "count", f"block counters ({int(b.error_blocks)}, {int(b.total_blocks)}) for {e // 3} bad blocks of {n // 3}")
     res.sample({"pairs": top * (top + 3) // 2})
+
+
+def symbols_case(p, res):
+    """symbol / frame error rate over a large alphabet: rows of W symbols whose values have magnitude 10^k, with ONE symbol differing by the smallest
+    step the dtype resolves there (off by one for integers, one ulp-scale step or 10^-k for floats); every (magnitude, position, block size) and
+    every way of presenting the batch (forward, one update, update after a clean / dirty batch, reversed arguments); reference = exact comparison of
+    the stored values.  'zero exactly when the inputs agree' is decided on values, not on closeness."""
+    import torch
+    dt = getattr(torch, p["dtype"])
+    W, R = 4, 3
+    cfg = f"symbols,{p['dtype']}"
+    isint = p["dtype"] == "int64"
+    mags = [10 ** k for k in range(0, 7 if p["dtype"] == "float32" else 13)]
+    steps = {}
+    for mag in mags:
+        steps[("mag", mag)] = (mag, 1)                    # off by one at magnitude mag (exactly representable: < 2^24 / 2^53)
+    if not isint:
+        for k in range(1, 7 if p["dtype"] == "float32" else 13):
+            steps[("tiny", k)] = (0.0, 10.0 ** -k)        # tiny difference next to 0
+            steps[("frac", k)] = (1.0, 2.0 ** -(k if p["dtype"] == "float32" else 3 * k))   # 1 vs 1 + 2^-j (representable)
+    dirty_x = torch.tensor([[1, 2, 3, 4]] * R).to(dt)
+    dirty_y = torch.tensor([[1, 2, 3, 5], [1, 2, 3, 4], [0, 2, 3, 4]]).to(dt)      # 2 bad rows of 3 (bs=None), bad blocks: bs=1:2, bs=2:2, bs=4:2
+    nb = 0
+    for key, (base, step) in steps.items():
+        for pos in range(R * W):
+            xs = [[base + (r * W + c) % 3 * (1 if isint or key[0] == "mag" else 0) for c in range(W)] for r in range(R)]
+            ys = [list(r_) for r_ in xs]
+            ys[pos // W][pos % W] = xs[pos // W][pos % W] + step
+            X = torch.tensor(xs, dtype=dt)
+            Y = torch.tensor(ys, dtype=dt)
+            stored_diff = [[X[r, c].item() != Y[r, c].item() for c in range(W)] for r in range(R)]
+            if not any(any(r_) for r_ in stored_diff):
+                continue                                  # the step is below the dtype's resolution: not a difference
+            for bs in (None, 1, 2, 4):
+                B = W if bs is None else bs
+                e = sum(1 for r in range(R) for k in range(0, W, B) if any(stored_diff[r][k:k + B]))
+                t = R * (W // B)
+                de = {None: 2, 1: 2, 2: 2, 4: 2}[bs]
+                dtot = R * (W // B)
+                obs = {}
+                m = make_metric("bler", bs)
+                obs["forward"] = (float(m.forward(X, Y)), e, t)
+                obs["forward-swapped"] = (float(m.forward(Y, X)), e, t)
+                m = make_metric("SER", bs)
+                m.update(X, Y)
+                obs["update"] = (counters(m, "bler"), (e, t))
+                m.update(X, X)
+                obs["update,clean"] = (counters(m, "bler"), (e, 2 * t))
+                m = make_metric("FER", bs)
+                m.update(dirty_x, dirty_y)
+                m.update(X, Y)
+                obs["dirty,update"] = (counters(m, "bler"), (e + de, t + dtot))
+                m = make_metric("bler", bs)
+                m.update(torch.cat([dirty_x, X]), torch.cat([dirty_y, Y]))
+                obs["update(concat)"] = (counters(m, "bler"), (e + de, t + dtot))
+                res.ev(len(obs), nontrivial=len(obs), transitions=len(obs) + 3)
+                for how, o in obs.items():
+                    bad = (not close(o[0], o[1], o[2])) if how.startswith("forward") else (o[0] != o[1])
+                    if bad:
+                        nb += 1
+                        if nb <= 4:
+                            clause = "count" if how.startswith("forward") else "stream=oneshot"
+                            res.viol("bler", cfg, clause, f"{how}: symbols of magnitude {base} differing by {step} at position {pos}, block_size={bs}: got {o[0]}, exact {o[1:] if how.startswith('forward') else o[1]}",
+                                     {"base": base, "step": step, "pos": pos, "bs": bs, "how": how})
+    res.sample({"dtype": p["dtype"], "steps": len(steps), "positions": R * W})
 
 
 def partition_case(p, res):
